@@ -195,9 +195,10 @@ def bindDest (dest : Dest) (v : Val) (env : Env) (s : St) : Except EK (Env × St
       else .ok (bindNames names items env s)
     | _ => .error .typeError
 
-/-- Snapshot of the visible bindings (innermost first). -/
+/-- Snapshot of the visible bindings (innermost first). Every location of an environment built by
+the evaluator is valid; a dangling one (impossible in a run) would be captured as `Unit`. -/
 def capture (env : Env) (store : List Val) : List (String × Val) :=
-  env.filterMap fun kl => (store[kl.2]?).map fun v => (kl.1, v)
+  env.map fun kl => (kl.1, (store[kl.2]?).getD vUnit)
 
 def patKey (p : Program) (variant : String) : Option (String × Nat) :=
   match nsLookup (funNames p) p.enums variant with
